@@ -238,8 +238,15 @@ def contour(prog, rep):
         a = dcs[0][2][2]
         if len(a) >= 2 and a[0][0] == "col" and a[1][0] == "col" and a[0][1] == a[1][1] and (a[0][2], a[1][2]) == (("const", 0), ("const", 1)):
             from vstat.terms import top_alts
-            src = {v_ for _l, v_ in top_alts(a[0][1])}
+            base_ = a[0][1]
+            converted = base_[0] == "call" and base_[1] in (G("numpy.asarray"), G("numpy.array")) and len(base_[2]) == 1 and not base_[3]
+            if converted:
+                base_ = base_[2][0]     # np.asarray(<supplied or computed>): the same numbers, indexable as an array
+            src = {v_ for _l, v_ in top_alts(base_)}
             ok = src == {dc, comp}
+            rep.check(converted, "C20.contour", f"{q}:design_conditions:array-like", fn.where(dcs[0][0]), "the design conditions are indexed as np.asarray(...)",
+                      "design_conditions is documented as array-like but indexed with [:, 0] as it comes: a list of pairs raises TypeError, a DataFrame KeyError "
+                      "(the sample, documented the same way, is converted with np.asarray)")
             why = (f"design conditions must be the supplied array as given, or calculate_design_conditions(contour, swap_axis=swap_axis) when only requested; "
                    f"found {show(a[0][1])[:200]}")
         else:
